@@ -1,9 +1,43 @@
 // The repository's src/main.cpp compiled as a library entry point: `main` becomes eph_cli_main,
 // so that `eph serve` and `eph <command>` run as simulated processes. Code appended to this
 // translation unit can reach main.cpp's anonymous-namespace helpers. No change to /repo.
+// The daemon's Node is a local variable of main(). To let a scenario look at it (C27: nothing is
+// registered by an unauthenticated FETCH; C34: what the daemon advertises) without any change to
+// /repo, the class name main.cpp uses for its control server is re-pointed, in this translation unit
+// only and after the real headers have been read, at a thin subclass that records which Node and
+// which node mutex the simulated daemon process is serving.
+#include "ephemeralnet/core/Node.hpp"
+#include "ephemeralnet/daemon/ControlPlane.hpp"
+
+#include <map>
+#include <mutex>
+#include <utility>
+
+namespace sk { int current_pid(); }
+
+namespace verif_w4 {
+struct DaemonHandle { ephemeralnet::Node* node = nullptr; std::mutex* node_mutex = nullptr; };
+std::map<int, DaemonHandle>& daemon_registry() { static std::map<int, DaemonHandle> r; return r; }
+}  // namespace verif_w4
+
+namespace ephemeralnet::daemon {
+class TrackedControlServer : public ControlServer {
+public:
+    template <class... Rest>
+    TrackedControlServer(Node& node, std::mutex& node_mutex, Rest&&... rest) : ControlServer(node, node_mutex, std::forward<Rest>(rest)...), pid_(sk::current_pid()) {
+        verif_w4::daemon_registry()[pid_] = {&node, &node_mutex};
+    }
+    ~TrackedControlServer() { verif_w4::daemon_registry().erase(pid_); }
+private:
+    int pid_;
+};
+}  // namespace ephemeralnet::daemon
+
+#define ControlServer TrackedControlServer
 #define main eph_cli_main
 #include "main.cpp"
 #undef main
+#undef ControlServer
 
 #include <string>
 #include <vector>
@@ -25,5 +59,9 @@ void reset_main_globals() {
 }
 
 bool serve_loop_running() { return g_run_loop.load(std::memory_order_acquire); }
+
+ephemeralnet::Node* daemon_node(int pid) { auto it = daemon_registry().find(pid); return it == daemon_registry().end() ? nullptr : it->second.node; }
+std::mutex* daemon_node_mutex(int pid) { auto it = daemon_registry().find(pid); return it == daemon_registry().end() ? nullptr : it->second.node_mutex; }
+void reset_daemon_registry() { daemon_registry().clear(); }
 
 }  // namespace verif_w4
